@@ -287,10 +287,15 @@ Section Generic.
 
   (* first loop of `linear`: axes on which the point coincides with a grid value are indexed away *)
   Fixpoint nd_hits (grid : list (list N)) (pt : list N) : res (list (option nat)) :=
-    match grid, pt with
-    | g :: gr, p :: pr => do r <- nd_hits gr pr; Ok (position g p :: r)
-    | [], _ => Ok []
-    | _ :: _, [] => Panic "index out of bounds: point[dim]"
+    match grid with
+    | [] => Ok []
+    | g :: gr =>
+        do r <- nd_hits gr (tl pt);
+        match g, pt with
+        | [], _ => Ok (None :: r)            (* the closure reading point[dim] never runs *)
+        | _ :: _, p :: _ => Ok (position g p :: r)
+        | _ :: _, [] => Panic "index out of bounds: point[dim]"
+        end
     end.
   (* product of the lengths of the axes that were not indexed away = values_view.len() *)
   Fixpoint rem_total (hits : list (option nat)) (sh : list nat) : nat :=
@@ -301,13 +306,17 @@ Section Generic.
     end.
   (* second loop: lower index and fraction for every remaining axis, in axis order *)
   Fixpoint nd_sels (grid : list (list N)) (pt : list N) (hits : list (option nat)) : res (list sel) :=
-    match grid, pt, hits with
-    | g :: gr, p :: pr, h :: hr =>
+    match grid, hits with
+    | g :: gr, h :: hr =>
         match h with
-        | Some pos => do r <- nd_sels gr pr hr; Ok (Hit pos :: r)
-        | None => do c <- cell g p; do r <- nd_sels gr pr hr; Ok (Cell (fst c) (snd c) :: r)
+        | Some pos => do r <- nd_sels gr (tl pt) hr; Ok (Hit pos :: r)
+        | None =>
+            match pt with
+            | [] => Panic "index out of bounds: point[dim]"
+            | p :: _ => do c <- cell g p; do r <- nd_sels gr (tl pt) hr; Ok (Cell (fst c) (snd c) :: r)
+            end
         end
-    | _, _, _ => Ok []
+    | _, _ => Ok []
     end.
 
   (* values_view.slice_each_axis(lower ..= lower + 1): the block of surrounding values; an axis that
